@@ -1998,6 +1998,10 @@ impl CommandParser {
                     }
                     let seconds = Self::extract_string(&frames[i + 1])?.parse::<u64>()
                         .map_err(|_| FerrousError::Command(CommandError::InvalidIntegerValue))?;
+                    // as the direct command: the expire time must be positive
+                    if seconds == 0 {
+                        return Err(FerrousError::Command(CommandError::Generic("invalid expire time".to_string())));
+                    }
                     options.expiration = Some(Duration::from_secs(seconds));
                     i += 2;
                 }
@@ -2007,6 +2011,10 @@ impl CommandParser {
                     }
                     let millis = Self::extract_string(&frames[i + 1])?.parse::<u64>()
                         .map_err(|_| FerrousError::Command(CommandError::InvalidIntegerValue))?;
+                    // as the direct command: the expire time must be positive
+                    if millis == 0 {
+                        return Err(FerrousError::Command(CommandError::Generic("invalid expire time".to_string())));
+                    }
                     options.expiration = Some(Duration::from_millis(millis));
                     i += 2;
                 }
